@@ -16,12 +16,12 @@ package main
 // Nothing here computes an expected value: inputs/outputs are only encoded/decoded.
 
 import (
-	"reflect"
 	"bufio"
 	"encoding/binary"
 	"encoding/json"
 	"fmt"
 	"os"
+	"reflect"
 	"regexp"
 	"runtime"
 	"runtime/debug"
